@@ -21,7 +21,8 @@ interface Labeled { label: String  stamp: DateTime }
 type Doc implements Labeled { label: String! stamp: DateTime! pages: Int! }
 type Pic implements Labeled { label: String stamp: DateTime }
 type User implements Node & Named { id: ID! name: String role: Role profile: Profile friends: [User!] best: User score: Float created: DateTime! seen: DateTime stamps: [DateTime!] }
-type Bot implements Node { id: ID! model: String! }
+directive @live on FIELD
+type Bot implements Node { id: ID! model: String! _rev: String _links: [String!] }
 type Ghost implements Node { id: ID! }
 union Actor = User | Bot
 union Solo = Bot
@@ -43,6 +44,12 @@ OPS = {
     "covariant_interface_field": "query Q { labeled { label stamp ... on Doc { pages } } labels { label ... on Doc { stamp } } }",
     "covariant_interface_field_via_fragments": "fragment D on Doc { pages } query Q { labeled { label stamp ...D } labels { ...D label } }",
     "repeated_field_under_aliases": "query Q { me { name displayName: name first: friends { id } second: friends { name } } }",
+    "typename_only_inside_one_inline_fragment": "query Q { node { id ... on User { __typename name } ... on Bot { model } } actor { ... on Bot { __typename id } } }",
+    "aliased_typename_on_object": "query Q { me { kind: __typename id best { what: __typename name } } }",
+    "other_directive_on_nullable_field": "query Q { me { id name @live score @live profile @live { bio } } }",
+    "inline_fragments_behind_two_fragment_levels": "fragment Inner on Node { ... on Bot { model } ... on User { name } } fragment Mid on Node { id ...Inner ... on Ghost { id } } fragment Outer on Node { ...Mid ... on Ghost { id } } query Q { node { ...Outer } nodes { ...Outer } }",
+    "fragment_with_nested_object_used_directly_and_inside_another": "fragment WithProfile on User { id profile { bio tags } } fragment Wrapper on User { name ...WithProfile best { ...WithProfile } } query Q { me { ...WithProfile } opt { ...Wrapper } }",
+    "underscore_prefixed_keys": "query Q { node { id ... on Bot { _rev _links _model: model } } me { _id: id _n: name } }",
     "skip_with_literal_conditions": "query Q { me { id name @skip(if: true) score @include(if: false) role @include(if: true) seen @skip(if: false) } }",
 }
 KNOWN_OPS = {
@@ -50,6 +57,7 @@ KNOWN_OPS = {
     "directive_on_fragment_spread": "fragment UB on User { name } query Q($c: Boolean!) { me { id ...UB @include(if: $c) } }",
     "class_name_collision": "query Q { me { best { friends { id } } } meBest: me { friends { name } } }",
     "fields_before_conditional_inline_fragment": "query Q($c: Boolean!) { me { id created ... on User @include(if: $c) { name } } }",
+    "aliased_typename_on_abstract_type": "query Q { node { what: __typename id } actor { t: __typename ... on Bot { id } } }",
     "fields_before_conditional_inline_fragment_on_interface": "query Q($c: Boolean!) { node { id ... on User @skip(if: $c) { name } } }",
 }
 
@@ -184,7 +192,7 @@ def _corruptions(data, path=()):
                 out.append(("null", p))
             if isinstance(v, (dict, list)):
                 out.append(("kind", p))
-            if k == "__typename":
+            if k == "__typename" or (isinstance(v, str) and v in ("User", "Bot", "Ghost", "Doc", "Pic")):
                 out.append(("typename", p))
             out.extend(_corruptions(v, p))
     elif isinstance(data, list):
@@ -361,7 +369,8 @@ def bounded_results(tier, seed):
     if tier == "thorough":
         runs += [(n, t, False) for n, t in OPS.items()]
     else:
-        runs += [("scalars_enums_nesting", OPS["scalars_enums_nesting"], False), ("aliases", OPS["aliases"], False)]
+        runs += [("scalars_enums_nesting", OPS["scalars_enums_nesting"], False), ("aliases", OPS["aliases"], False),
+                 ("underscore_prefixed_keys", OPS["underscore_prefixed_keys"], False)]
     total = 0
     for n, t, snake in runs:
         r = check_operation(n, t, snake)
@@ -378,7 +387,8 @@ def bounded_results(tier, seed):
 KNOWN_FAILS = {"inline_fragment_on_other_interface": ["generation"], "directive_on_fragment_spread": ["conformant-response-accepted"],
                "class_name_collision": ["conformant-response-accepted"],
                "fields_before_conditional_inline_fragment": ["conformant-response-accepted"],
-               "fields_before_conditional_inline_fragment_on_interface": ["conformant-response-accepted"]}
+               "fields_before_conditional_inline_fragment_on_interface": ["conformant-response-accepted"],
+               "aliased_typename_on_abstract_type": ["generation"]}
 
 
 def is_known_case(rep):
